@@ -57,10 +57,19 @@ def design_level(thorough, res):
     try:
         states = trans = 0
         cfgs = ["Timing_exh.cfg", "Timing_lazy.cfg"] + (["Timing_exh4.cfg", "Timing_lazy2.cfg", "Timing_lazy22.cfg"] if thorough else [])
-        per = {}
+        per, runs = {}, {}
+
+        def one(cfg):
+            runs[cfg] = vlib.tlc("TimingMC", cfg, deadlock=False, timeout=3000, workers=6, heap="8g" if thorough else "4g")
+        # the two large configurations of the thorough tier run next to the small ones
+        big = [threading.Thread(target=one, args=(c,)) for c in cfgs if c in ("Timing_lazy2.cfg", "Timing_lazy22.cfg")]
+        [t.start() for t in big]
         for cfg in cfgs:
-            r = vlib.tlc("TimingMC", cfg, deadlock=False, timeout=3000, workers=None if thorough else 6,
-                         heap="16g" if thorough else "4g")
+            if cfg not in ("Timing_lazy2.cfg", "Timing_lazy22.cfg"):
+                one(cfg)
+        [t.join() for t in big]
+        for cfg in cfgs:
+            r = runs[cfg]
             vlib.tlc_must_pass(r, cfg)
             states += r.distinct
             trans += r.generated
@@ -123,8 +132,40 @@ def scripts_from_tlc(n_walks, n_pick, first_id=1):
     return cases, len(walks)
 
 
+CANARY = 1000000
+# Synthetic runs appended to every batch: TraceTiming MUST flag exactly these rules on them, otherwise the trace
+# specification has lost its teeth (machinery failure).  They never count as verdicts about the code.
+def canary_rows():
+    t = lambda run, k, tok, a, b, d, net=0, tag="": {"ev": "tok", "run": run, "k": k, "tok": tok, "a": a, "b": b, "d": d,
+                                                     "net": net, "tag": tag, "dur": 0, "exp": "", "pa": 0, "pb": 0}
+    c1, c2 = CANARY, CANARY + 1
+    rows = [
+        {"ev": "run", "run": c1, "kind": "canary", "key": "absent", "got": True, "ninst": 1, "desc": "canary on"},
+        t(c1, 1, 100000, 2600000, 2600010, "fire"),                      # fired-two-seconds-late
+        t(c1, 2, 200000, 1200000, 1200010, "discard", 777, "discarded"), # discarded-inside-window
+        t(c1, 3, 300000, 3300000, 3300010, "discard", 0, "discarded"),   # discard-not-marked (net)
+        t(c1, 4, 300000, 3300000, 3300010, "discard", 777, ""),          # discard-not-marked (tag)
+        t(c1, 5, 400000, 100000, 399999, "fire"),                        # fired-early (1 us)
+        t(c1, 6, 500000, 500000, 500010, "both"),                        # shot-and-discarded
+        {"ev": "end", "run": c1, "end": 9000000, "left": 0, "drawn": 7, "err": "", "timeout": False, "last": 500000, "orphans": 0},
+        {"ev": "run", "run": c2, "kind": "canary", "key": "absent", "got": False, "ninst": 1, "desc": "canary off"},
+        t(c2, 1, 100000, 3100000, 3100010, "discard", 777, "discarded"), # discarded-while-off
+        t(c2, 2, 100000, 3100000, 3100010, "fire"),                      # fine: late but discard is off
+        {"ev": "end", "run": c2, "end": 4000000, "left": 0, "drawn": 2, "err": "", "timeout": False, "last": 100000, "orphans": 0},
+        {"ev": "conf", "run": c2, "pool": 0, "key": "false", "got": True},
+    ]
+    expect = {(c1, "fired-two-seconds-late"), (c1, "discarded-inside-window"), (c1, "discard-not-marked"),
+              (c1, "fired-early"), (c1, "shot-and-discarded"), (c1, "token-lost"), (c1, "run-not-bounded"),
+              (c2, "default-not-applied"), (c2, "discarded-while-off"), (c2, "not-all-fired-while-off")}
+    return rows, expect
+
+
 def validate(v, trace_path, cases_by_id):
     rows = vlib.read_ndjson(trace_path)
+    crow, cexpect = canary_rows()
+    rows = rows + crow
+    trace_path = trace_path + ".canary"
+    vlib.write_ndjson(trace_path, rows)
     tr = vlib.tlc("TraceTiming", "TraceTiming.cfg", env={"VERIF_TRACE": trace_path}, workers=1, deadlock=False,
                   timeout=900, heap="2g")
     if tr.error or tr.violation:
@@ -135,9 +176,13 @@ def validate(v, trace_path, cases_by_id):
     rep = rep[0]
     seen = {}
     machinery = []
+    cgot = {}
     for e in rep["viol"]:
         row = rows[e["l"] - 1]
         e["run"] = row["run"]
+        if e["run"] >= CANARY:
+            cgot[(e["run"], e["rule"])] = cgot.get((e["run"], e["rule"]), 0) + 1
+            continue
         case = cases_by_id.get(e["run"], {})
         if e["rule"] in ("run-error", "run-timeout-off"):
             machinery.append("%s: case %s: %s" % (e["rule"], case.get("desc"), row))
@@ -159,6 +204,12 @@ def validate(v, trace_path, cases_by_id):
                     replay_obj={"kind": "timing", "rule": e["rule"], "case": case, "line": row,
                                 "events": [r_ for r_ in rows if r_.get("run") == e["run"]]},
                     replay_name="%s_run%d.json" % (e["rule"], e["run"]))
+    if set(cgot) != cexpect or cgot[(CANARY, "discard-not-marked")] != 2 or cgot[(CANARY + 1, "default-not-applied")] != 2:
+        raise vlib.MachineryError("TraceTiming canary: flagged %s, expected %s" % (sorted(cgot.items()), sorted(cexpect)))
+    rep["runs"] -= 2
+    rep["toks"] -= 8
+    rep["canary"] = sum(cgot.values())
+    rows = rows[:-len(crow)]
     if machinery and not v.violations:
         raise vlib.MachineryError("; ".join(machinery[:3]))
     return rep, rows, tr.distinct
@@ -173,15 +224,15 @@ def run(tier, v):
     try:
         b = vlib.harness_build()
         d = vlib.scratch("c04-timing-")
-        n_scripts, n_random, n_walks = (240, 160, 3000) if thorough else (28, 28, 500)
+        n_scripts, n_random, n_walks, n_confs = (240, 160, 3000, 60) if thorough else (28, 28, 500, 12)
         scripts, nwalks = scripts_from_tlc(n_walks, n_scripts)
         cin = os.path.join(d, "scripts.ndjson")
         vlib.write_ndjson(cin, scripts)
         out = os.path.join(d, "trace.ndjson")
         cout = os.path.join(d, "cases.ndjson")
         t0 = time.time()
-        vlib.run_driver(b, ["timing", "-in", cin, "-random", str(n_random), "-out", out, "-cases-out", cout,
-                            "-par", "64"], timeout=1500)
+        vlib.run_driver(b, ["timing", "-in", cin, "-random", str(n_random), "-confs", str(n_confs), "-out", out,
+                            "-cases-out", cout, "-par", "64"], timeout=1500)
         drv_wall = time.time() - t0
         cases = {c["id"]: c for c in vlib.read_ndjson(cout)}
         rep, rows, tstates = validate(v, out, cases)
@@ -214,7 +265,10 @@ def run(tier, v):
         "tokens_fired_late_observed": sum(1 for r_ in toks if r_["d"] == "fire" and r_["a"] - r_["tok"] > 100000),
         "max_lateness_fired_us": max([r_["a"] - r_["tok"] for r_ in toks if r_["d"] == "fire"] or [0]),
         "script_tokens_confirmed_on_script": rep["confirmed"], "script_tokens_off_script": rep["offscript"],
-        "config_default_cases": {k_: sum(1 for c in cases.values() if c["key"] == k_) for k_ in ("absent", "true", "false")},
+        "config_default_cases": {k_: sum(1 for c in cases.values() if c["key"] == k_) +
+                                 sum(1 for r_ in rows if r_["ev"] == "conf" and r_["key"] == k_ and r_["run"] < CANARY)
+                                 for k_ in ("absent", "true", "false")},
+        "trace_spec_canary_violations_flagged": rep["canary"],
         "trace_states": tstates, "driver_wall_s": round(drv_wall, 1),
         "exhaustive": False,
     }
